@@ -748,6 +748,7 @@ class GraphProp:
     check_cone = False
     check_mutation = True
     final_sweep = "sample"  # "all" | "sample" | None
+    single_fresh = 0  # number of elements per run compared with a one-element fresh computation
     components_real = ["all of pymablock (series, algorithm_parsing, algorithms, block_diagonalization, linalg)"]
     components_stub = ["SciPy-1.18 shim: ComplementProjector.__init__ additionally calls LinearOperator.__init__ when the base was not initialised (implicit-mode worlds only, values untouched)",
                        "scipy.sparse.linalg.eigsh start vector fixed while a KPM solver is constructed (the library's only result-affecting randomness)",
@@ -1005,6 +1006,20 @@ class GraphProp:
             env.faults_enabled = False
             env.sticky.clear()
             self._final(sim, env, world, table, case, fail, bump, handed, stats)
+            if violation is None and self.single_fresh:
+                # variant (b) of the oracle: one fresh computation for this element only (the literal reading of
+                # "equals the value from a fresh computation"); the element is chosen from what the schedule touched
+                touched = [op for op in ops if op[0] == "get" and isinstance(op[1], int) and op[1] < len(world["comps"])]
+                pick = touched[:: max(1, len(touched) // self.single_fresh)][: self.single_fresh]
+                for op in pick:
+                    key = (op[1], op[2], op[3], op[4], tuple(op[5]))
+                    if key not in table or table[key][0] == "raise" or world.get("illposed"):
+                        continue
+                    alone = fresh_single(world, key)
+                    bump("single_fresh_checked")
+                    if not same(alone, table[key], stats):
+                        fail("fresh-single-vs-walk", f"{key}: a fresh computation asked for this element only gives {self._show_n(alone)}, the ascending walk of a fresh computation gives {self._show_n(table[key])}")
+                        break
         if violation is None and self.check_mutation:
             for k, v in sim.inp.audit_objects().items():
                 if fingerprint(norm(v)) != audit_in[k]:
